@@ -164,7 +164,7 @@ func isRuntimeGoro(g *Goro) bool {
 		return true
 	}
 	for _, f := range g.Frames {
-		if strings.HasSuffix(f, "main.spinWatchdog") {
+		if strings.HasSuffix(f, "main.spinWatchdog") || strings.HasSuffix(f, "rig.stallWatch") {
 			return true // the worker's own watchdog sleeps on purpose and never touches the system under test
 		}
 	}
@@ -520,4 +520,30 @@ func ProveSpin(samples int, minCPU time.Duration, stillStuck func() bool) SpinSt
 		return SpinState{Spinning: true, Func: fn, CPU: processCPU() - cpu0, Dump: raw}
 	}
 	return SpinState{Reason: "no candidate"}
+}
+
+// StallWatch starts a goroutine (excluded from dead-state proofs by its name) that ends a worker whose own goroutine
+// is stuck inside a library call: when progress() has not moved for four seconds and the process is provably dead,
+// onDead is called with the proof. Used by the workers that call the tracker directly on their main goroutine.
+func StallWatch(progress func() int64, onDead func(ds DeadState)) {
+	go stallWatch(progress, onDead)
+}
+
+func stallWatch(progress func() int64, onDead func(ds DeadState)) {
+	last, since := progress(), time.Now()
+	for {
+		time.Sleep(time.Second)
+		if now := progress(); now != last {
+			last, since = now, time.Now()
+			continue
+		}
+		if time.Since(since) < 4*time.Second {
+			continue
+		}
+		if ds := ProveDead(DeadInterval); ds.Dead && progress() == last {
+			onDead(ds)
+			return
+		}
+		since = time.Now()
+	}
 }
